@@ -9,8 +9,10 @@ observable and checked against generic invariants.
 """
 from .. import flowcheck
 from .. import floworacle as fo
+from . import c11_heap
 
 LEAN_MODULES = ['Props.C11', 'Props.Agreement']
+LEAN_MODULES += [m for m in c11_heap.LEAN_MODULES if m not in LEAN_MODULES]
 TRUSTED = ['harness/flow_impl.py (yaml renderer, canonicaliser, virtual clock, scripted random.uniform)',
            'harness/probe/vprobe.py (probe step) and its model probeStep',
            'harness/floworacle.py (directed expectations written from the property text)',
@@ -26,10 +28,17 @@ def run(env, res):
                 'None/0/\'\'/False/[]/{}, 12% with a malformed group body or sequence item, 35% written in another '
                 'yaml layout: flow style, JSON, first step on line 1, other indentation); a case is '
                 'non-trivial when the model accepts it and it terminates; distinct by canonical program text')
-    directed = [('c11', fo.c11_family, env.n(108, 100000))]
+    directed = [('c11', fo.c11_family, env.n(108, 100000)), ('c11-self', fo.c11_self_family, env.n(60, 100000)),
+                ('c01-names', fo.c01_names_family, env.n(60, 100000)),
+                ('c02-parser-handler', fo.c02_parser_handler_family, env.n(18, 100000)),
+                ('c11-out-container', fo.c11_out_container_family, env.n(36, 100000))]
     flowcheck.run_streams(env, res, directed, env.n(500, 100000), weights={'pype': 6, 'fail': 3, 'stop': 1, 'stoppipeline': 1.5},
                           random_monitor=flowcheck.monitor_all)
+    # object-level stream: what the child can reach of the parent (heap model, Props/C11Heap.lean)
+    c11_heap.run(env, res)
 
 
 def replay(env, res, case):
+    if c11_heap.owns(case):
+        return c11_heap.replay(env, res, case)
     flowcheck.replay_case(env, res, case)
